@@ -190,21 +190,24 @@ def sig_of(inv, rows, idx):
             return "EnabledButFiltered:slog-unnamed" if slclass(h["sl"]).startswith(("unnamed", "above")) else \
                 "EnabledButFiltered:%s:thr=%s" % (slclass(h["sl"]), "/".join(h["ws"]))
         if inv == "Excess":
-            causes = set()
+            # the record that took the token: the most recent record of the family that was handled, passed nothing on
+            # and was itself dropped by the LEVEL rule (no level in effect / unnamed slog level / setLevel raced with it)
+            cause = "nothing"
             for p in reversed(hist[:-1]):
                 if p["f"] != "fd":
                     continue
                 if p["sent"]:
                     break
                 if any(w in ("unset", "absent") for w in p["ws"]):
-                    causes.add("nolevel")
+                    cause = "nolevel"
                 elif p["sl"] not in SLOG.values():
-                    causes.add("unnamed")
+                    cause = "unnamed"
                 elif p["raced"]:
-                    causes.add("raced")
+                    cause = "raced"
                 else:
-                    causes.add("other")
-            return "Excess:starved-by=%s" % ("+".join(sorted(causes)) or "nothing")
+                    continue
+                break
+            return "Excess:starved-by=%s" % cause
         return "%s:slog:%s:ctx=%s:thr=%s:sl=%s:fam=%s:clone=%s" % (inv, era, "bg" if h["c"] == "bg" else "req", "/".join(h["ws"]),
                                                                   slclass(h["sl"]), h["f"], h["k"])
     if e["op"] == "LogDirect":
@@ -223,7 +226,7 @@ def run(tier, seed, replay):
     v.assumptions = [
         "time is virtual (testing/synctest) and judged at a resolution of 1 microsecond; x/time/rate admits an event up to 1 ns early "
         "(its wait is truncated to whole nanoseconds - seen with a probe at d - 1 ns), which is below the resolution of P3",
-        "MinInterval of the rate-limited family is 2 ticks; one tick is 1us .. 90s (seeded per scenario), so 'just below d' is d - 1us in some runs",
+        "MinInterval of the rate-limited family is 2 ticks; one tick is 1us .. 5s (seeded per scenario), so 'just below d' is d - 1us in some runs",
         "one logging goroutine at a time: a slog call is split at the public seam between Handler.Enabled and Handler.Handle "
         "(where slog.Logger holds no lock) and at most one logging/setLevel falls into that window; concurrent loggers "
         "(documented as possibly out of order) are not exercised",
@@ -231,14 +234,14 @@ def run(tier, seed, replay):
         "(treated as debug) and only drift is reported for them",
         "what the server sent is observed with a server sending middleware, what the client received with ClientOptions.LoggingMessageHandler",
         "stateless HTTP: SSE responses only (with JSONResponse the SDK documents that notifications 'may' not reach the client)",
-        "TLC exhaustive results are for the stated small constants (D = 2 ticks, <= 2 requests, <= 3 set levels, 5 slog levels)",
+        "TLC exhaustive results are for the stated small constants (D = 2 ticks, <= 2 requests, <= 4 set levels, 5 slog levels)",
     ]
     out = vlib.outdir(PID)
     rng = random.Random(seed)
     lead_sc = []
     if replay:
         rep = json.load(open(replay))["replay"]
-        scen = [rep["scenario"]]
+        scen = [rep["scenario"]] if rep.get("scenario") else []
         http_cases = rep.get("http", [])
     else:
         design(v, tier)
@@ -262,6 +265,8 @@ def run(tier, seed, replay):
 
     # real code
     seeds = [seed] if (tier == "quick" or replay) else [seed, seed + 1000]
+    if replay and rep.get("seed"):
+        seeds = [rep["seed"]]
     obs_path = os.path.join(out, "obs.ndjson")
     rows = []
     for sd in seeds:
@@ -301,10 +306,11 @@ def run(tier, seed, replay):
             v.violation("panic", "panic while a logging scenario was running: " + bad[0]["err"][:300], {"line": bad[0]})
             return v.finish()
         raise vlib.MachineryError("scenario could not be set up: %s" % json.dumps(bad[0])[:400])
-    ntr = sum(1 for r in rows if r["ev"] == "reset")
+    ntr = sum(1 for r in rows if r["ev"] == "reset" and r["trace"] != "http")
     if ntr != len(scen) * len(seeds):
         raise vlib.MachineryError("harness ran %d of %d scenarios" % (ntr, len(scen) * len(seeds)))
     wrong_era = [r for r in rows if r["ev"] == "reset" and r["era"] != r["oera"]]
+    
     if wrong_era:
         raise vlib.MachineryError("a scenario did not negotiate its era: %s" % json.dumps(wrong_era[0])[:300])
     stuck = [r for r in rows if r["op"] == "end" and r["stuck"]]
@@ -338,10 +344,19 @@ def run(tier, seed, replay):
         v.sample({"trace": tid, "steps": [[r["op"], r["f"], r["c"], r["sl"], r["lvl"], r["L"], r["en"], [s["lvl"] for s in r["sent"]]] for r in trows[1:8]]})
 
     hit_by_trace = {}
-    unfollow = [f for f in fails if f["monfail"] in ("unfollowable", "stuck")]
-    if unfollow:
-        e = rows[unfollow[0]["line"] - 1]
-        raise vlib.MachineryError("monitor: %s at line %d (%s)" % (unfollow[0]["monfail"], unfollow[0]["line"], json.dumps(e)[:300]))
+    # a step the specification cannot take is a generation error - unless the trace had already drifted
+    first_drift = {}
+    for f in fails:
+        if f["monfail"] == "drift":
+            tid = vlib.trace_of_line(traces, f["line"])[0]
+            first_drift[tid] = min(first_drift.get(tid, f["line"]), f["line"])
+    for f in fails:
+        if f["monfail"] in ("unfollowable", "stuck"):
+            tid = vlib.trace_of_line(traces, f["line"])[0]
+            if f["monfail"] == "stuck" or first_drift.get(tid, 1 << 60) > f["line"]:
+                e = rows[f["line"] - 1]
+                raise vlib.MachineryError("monitor: %s at line %d (%s)" % (f["monfail"], f["line"], json.dumps(e)[:300]))
+    fails = [f for f in fails if f["monfail"] != "unfollowable"]
     seen = set()
     ndrift = 0
     for f in sorted(fails, key=lambda f: f["line"]):
